@@ -66,11 +66,20 @@ def unit_memo():
 def jobs(tier):
     m = ("strict",)
     js = [(unit_memo, ())]
+    # the class shown for an encrypted parameter area is the memoised one (the same object T.encrypted() gives everybody): both modes
+    js += [j for j in D.g_structs(("warn",)) if len(j[1]) == 4 and j[1][3] is True]
+    from checks import c11
+    L0 = layout()
+    js += [(c11.unit_d2o, ("area", k)) for k in D.all_area_keys()]
     js += D.g_dispatch(m) + D.g_structs(m) + D.g_arrays(m) + D.g_frames(m) + D.g_leaf(("strict", "warn"), deep=1) + D.g_region(("strict", "warn"), tier) + D.g_pump(("strict", "warn")) + D.g_typed(("INT", "VALID"))
     return js
 
 
 def keep(name, ob):
+    if "/encrypted/" in name and ("item0:event" in name or name.endswith("no-internal-error")):
+        return True  # which class object stands for an encrypted area
+    if name.startswith("C11/D2O/") and "encrypted" in name:
+        return True  # ... and the events-to-object conversion uses the same one
     return ob.get("kind") in ("frame", "memo") or "forwards-arguments" in name or "one-list-per-" in name or "REGION/fresh" in name
 
 
